@@ -1663,7 +1663,7 @@ def run(ctx):
     for b in ID_BASES:
         ctx.require("idrange_0x%08X_responses_with_exact_id" % b, ctx.pick(60, 700))
     for tname in ("STATUS", "HANDLE", "DATA", "NAME", "ATTRS", "EXTENDED_REPLY"):
-        ctx.require("idrange_responses_type_" + tname, ctx.pick(16, 200))
+        ctx.require("idrange_responses_type_" + tname, ctx.pick(16, 100))
     ctx.require("client_programs_with_high_request_ids", ctx.pick(60, 1000))
     ctx.require("backpressure_programs_completed", ctx.pick(10, 200))
     ctx.require("backpressure_client_sends_parked_on_full_pipe", ctx.pick(10, 200))
